@@ -844,6 +844,21 @@ def extract_mutation_hash_by_id(repo):
     return found == [('BaseMutation', 'return id(self)')]
 
 
+def extract_q_sig_kwargs(repo):
+    """QSerialization.serialize_to_signature: which keyword arguments of a Q object are written, under which tests -
+    `_connector` whenever the connector is not the default one (whatever it is: OR, XOR), `_negated` when negated"""
+    tree = ast.parse(_src(repo, 'django_evolution/serialization.py'))
+    cls = _find_class(tree, 'QSerialization')
+    fn = _find_func(cls, 'serialize_to_signature')
+    out = []
+    for n in ast.walk(fn):
+        if isinstance(n, ast.If):
+            for b in n.body:
+                if isinstance(b, ast.Assign) and len(b.targets) == 1 and ast.unparse(b.targets[0]).startswith('kwargs['):
+                    out.append('%s: %s = %s' % (ast.unparse(n.test), ast.unparse(b.targets[0]), ast.unparse(b.value)))
+    return sorted(out)
+
+
 def extract_found_reset_per_label(repo):
     """get_app_mutations: the flag that says "an SQL file was found for this label" is set to False INSIDE the loop
     over the labels (once per label), so that a label without an SQL file falls back to its Python module whatever
@@ -1127,6 +1142,10 @@ def regenerate(repo, outdir):
     flags['found_reset_per_label'] = frl
     parts.append('/-- get_app_mutations forgets, for every label, whether an earlier label was shipped as an SQL file -/')
     parts.append('def foundResetPerLabel : Bool := ' + ('true' if frl else 'false'))
+    qsk = extract_q_sig_kwargs(repo)
+    flags['q_sig_kwargs'] = qsk
+    parts.append('/-- QSerialization.serialize_to_signature: the keyword arguments written for a Q object, with their tests -/')
+    parts.append('def qSigKwargs : List String := ' + lean_list(lean_str(x) for x in qsk))
     mhi = extract_mutation_hash_by_id(repo)
     flags['mutation_hash_by_id'] = mhi
     parts.append('/-- mutations hash by identity: `mutation in removed_mutations` never matches a look-alike -/')
